@@ -150,6 +150,22 @@ const BF2_PATTERNS: &[&str] = &[
 ];
 const BF2_OPTIONS: &[&str] = &["", "script", "domain=example.com"];
 
+// long fields: hostnames and paths of 20 to 40 bytes that differ only near their start or in one
+// inner segment (whatever the rule id is computed from, it has to see every byte of every field)
+const BF_LONG_PATTERNS: &[&str] = &[
+    "||ads.tracking-platform.com^", "||cdn.tracking-platform.com^", "||tracking-platform.com^", "||pixel.tracking-platform.com^", "||bds.tracking-platform.com^",
+    "/static/banners/slot1/leaderboard.png", "/static/banners/slot2/leaderboard.png", "/ttatic/banners/slot1/leaderboard.png",
+    "||media.example.net/player/v1/assets/bundle.js", "||media.example.net/player/v2/assets/bundle.js", "||nedia.example.net/player/v1/assets/bundle.js",
+    "@@||ads.tracking-platform.com^", "@@||cdn.tracking-platform.com^", "@@/static/banners/slot1/leaderboard.png", "@@/static/banners/slot2/leaderboard.png",
+    "@@||media.example.net/player/v1/assets/bundle.js", "@@||media.example.net/player/v2/assets/bundle.js",
+];
+const BF_LONG_OPTIONS: &[&str] = &["", "script", "third-party"];
+const BF_LONG_URLS: &[&str] = &[
+    "https://ads.tracking-platform.com/x", "https://cdn.tracking-platform.com/x", "https://tracking-platform.com/x", "https://pixel.tracking-platform.com/x", "https://bds.tracking-platform.com/x",
+    "https://x.com/static/banners/slot1/leaderboard.png", "https://x.com/static/banners/slot2/leaderboard.png", "https://x.com/ttatic/banners/slot1/leaderboard.png",
+    "https://media.example.net/player/v1/assets/bundle.js", "https://media.example.net/player/v2/assets/bundle.js", "https://nedia.example.net/player/v1/assets/bundle.js",
+];
+
 // option cube: one option set per distinguishing feature of a rule (every request type, the two
 // redirect flavours, resource names and priorities, csp / removeparam values, match-case, negated
 // types): a badfilter must cancel a rule only if ALL of these agree. (No list that mixes positive and
@@ -410,6 +426,17 @@ fn check(ctx: &Ctx) -> i32 {
     let m2 = bf2.len() as u64;
     ctx.par_range("badfilter pattern cube", m2 * m2, 16, |i, l| {
         check_badfilter_pair(bf2[(i / m2) as usize], bf2[(i % m2) as usize], &bf_reqs, l);
+    });
+    let bfl: Vec<(&'static str, &'static str)> = BF_LONG_PATTERNS.iter().flat_map(|p| BF_LONG_OPTIONS.iter().map(move |o| (*p, *o))).collect();
+    let bfl_reqs: Vec<Req> = BF_LONG_URLS
+        .iter()
+        .flat_map(|u| [("https://unrelated.org/", "script"), ("https://unrelated.org/", "image"), ("", "script")].into_iter().map(move |(s, t)| (*u, s, t)))
+        .filter_map(|(u, s, t)| adblock::request::Request::new(u, s, t).ok().map(|req| Req { req, url: u.to_string(), source: s.to_string(), ty: t }))
+        .collect();
+    ctx.bound("badfilter_long_field_spellings", bfl.len());
+    let ml = bfl.len() as u64;
+    ctx.par_range("badfilter long fields", ml * ml, 16, |i, l| {
+        check_badfilter_pair(bfl[(i / ml) as usize], bfl[(i % ml) as usize], &bfl_reqs, l);
     });
     let bf3: Vec<(&'static str, &'static str)> = BF3_PATTERNS
         .iter()
